@@ -519,4 +519,3 @@ func replayC02(r *core.Run, c core.Case) {
 		}
 	}
 }
-
